@@ -1,7 +1,7 @@
 #!/bin/bash
 # eval_all.sh <ID> [extra args]: evaluate /tmp/seeded_out/<ID>/{a,b}
 ID=$1; shift
-for x in a b; do
+for x in ${XS:-a b}; do
   d=/tmp/seeded_out/$ID/$x
   [ -f $d/patch.diff ] || continue
   python3 /verif/tools/eval_seeded.py $ID $d "$@" > $d/eval.json.txt 2>&1
